@@ -78,8 +78,10 @@ def foreign_kind_reply(ctx):
                 continue
             good = []
             for (bb, t, dest_at, msg) in sends_via(r, a, R):
+                # (inside the handler of kind `other` a reply carrying the request's own kind carries `other`)
+                mk = ((msg.kinds - {"msg", "param"}) | {other}) if (msg and "msg" in msg.kinds) else (msg.kinds if msg else set())
                 if msg_field_atoms("Requested", "requester")(dest_at) and msg and msg.variant == "Ok" \
-                        and msg.kinds == {other} and is_awaited(a, bb) and _must_pass(a, R, bb):
+                        and mk == {other} and is_awaited(a, bb) and _must_pass(a, R, bb):
                     good.append(bb)
             ctx.check(bool(good), f"{lab}/Requested.{other}", [site(a, b) for b in good] or [a.loc(min(R))],
                       f"a request for {other} is not answered with Ok{{{other}}} to the requester on every path: the requester would wait forever")
@@ -88,11 +90,15 @@ def foreign_kind_reply(ctx):
 def forward_fns(r):
     """local async fns that send an ActorInputMessage on an actor inbox (the relay's forward function)"""
     out = []
-    for b in r.f.user_bodies():
-        if not b.coroutine or r.is_role(r.actors(), b):
+    for raw in r.f.user_bodies():
+        if not raw.coroutine or r.is_role(r.actors(), raw):
             continue
+        fn = r.fn_of(raw)
+        if not (fn.argc >= 3 and re.search(r"&(mut )?[\w:]*TargetActors$", fn.locals[1]["ty"])):
+            continue
+        b = r.V(raw)   # the send itself may sit in a small helper (`deliver(handles, msg)`) spliced into the forward function
         for (bb, t, ty, how) in send_calls(b):
-            if tyname(ty) == "ActorInputMessage" and re.search(r"&(mut )?[\w:]*TargetActors$", r.fn_of(b).locals[1]["ty"]) and r.fn_of(b).argc >= 3:
+            if tyname(ty) == "ActorInputMessage":
                 out.append((b, bb, t, how))
     return out
 
@@ -171,7 +177,8 @@ def no_lossy_send(ctx):
         for (bb, t, ty, how) in send_calls(b):
             if tyname(ty) in PROTOCOL_TYPES:
                 n_sends += 1
-    ctx.need(n_sends >= 4, f"send sites on the protocol channels (found {n_sends}, 5 confirmed by hand)")
+    # (5 on the reference tree: the actors' output send, the failure report, and three sends to actor inboxes - which a shared `deliver` helper may merge)
+    ctx.need(n_sends >= 2, f"send sites on the protocol channels (found {n_sends}, 5 confirmed by hand)")
     bad = lossy_sends(ctx.f)
     for (b, bb, how) in bad:
         ctx.bad(f"{short(b.name)}/{how.split()[0]}", [site(b, bb)], f"`{how}` on a protocol channel can drop a message")
@@ -446,6 +453,16 @@ def request_deps(ctx):
                 for (cv, cbb, ct) in r.callers_of(b, prefer=[]):
                     if a[1] - 1 < len(ct["args"]):
                         kinds |= atom_aggs(cv.prov.operand_atoms(ct["args"][a[1] - 1]), "ExecutionKind")
+        if not {"Build", "Service"} <= kinds and b.kind == "Closure" and b.parent in f.bodies:
+            # built in a closure mapped over a literal list of kinds: `[Build, Service].iter().map(|&kind| Requested { kind, .. })`
+            pb = f.bodies[b.parent]
+            for blk in pb.normal_blocks():
+                for st2 in blk["stmts"]:
+                    if st2["rv"]["k"] == "agg" and st2["rv"].get("closure") == b.name:
+                        fl2 = pb.prov.flows_forward(st2["lhs"]["local"])
+                        for cb2, ct2 in pb.calls():
+                            if any(operand_local(a) in fl2 for a in ct2["args"][1:]) and re.search(r"Iterator>?::(map|for_each|flat_map)(::<.*>)?$", callee_decl(ct2)):
+                                kinds |= atom_aggs(pb.prov.operand_atoms(ct2["args"][0]), "ExecutionKind")
         ctx.check({"Build", "Service"} <= kinds, f"root-request/{short(b.name)}", [site(b, bb)],
                   f"root targets are requested for {sorted(kinds)} only", props=["C04"])
 
